@@ -1,6 +1,7 @@
 package main
 
 import (
+	"go/types"
 	"bytes"
 	"context"
 	"fmt"
@@ -628,6 +629,19 @@ func zeroProbe(o *Obligation) []string {
 		var w int
 		if n, _ := fmt.Sscanf(in.Term.Sort, "(_ BitVec %d)", &w); n == 1 && w > 0 && w%4 == 0 {
 			out = append(out, fmt.Sprintf("(assert (= %s #x%s))", in.Term.S, strings.Repeat("0", w/4)))
+			continue
+		}
+		// struct value: its integer fields
+		if st, ok := in.GoTy.Underlying().(*types.Struct); ok && strings.HasPrefix(in.Term.Sort, "S_") {
+			for i := 0; i < st.NumFields(); i++ {
+				if b, ok := st.Field(i).Type().Underlying().(*types.Basic); ok && b.Info()&types.IsInteger != 0 {
+					bits := map[types.BasicKind]int{types.Int8: 8, types.Uint8: 8, types.Int16: 16, types.Uint16: 16, types.Int32: 32, types.Uint32: 32}[b.Kind()]
+					if bits == 0 {
+						bits = 64
+					}
+					out = append(out, fmt.Sprintf("(assert (= (f%d_%s %s) #x%s))", i, in.Term.Sort, in.Term.S, strings.Repeat("0", bits/4)))
+				}
+			}
 		}
 	}
 	return out
